@@ -456,6 +456,9 @@ func limitsFor(r *rand.Rand, n, m int, all bool) []int {
 	add(m + 1)
 	add(n)
 	add(n + 1)
+	for _, l := range []int{63, 64, 65, 100, 127, 128, 129, 255, 256, 257, 511, 512, 513} {
+		add(l) // page ends around the powers of two (iterator step counters)
+	}
 	for i := 0; i < 10; i++ {
 		add(1 + r.Intn(n+1))
 	}
@@ -708,10 +711,18 @@ func (w *worker) dataset(idx int, thorough bool) {
 		if idx >= 10 {
 			n = 5 + r.Intn(36)
 		}
+		if idx%30 == 29 {
+			// a few collections larger than the iterators' internal step counter period (256)
+			n = 300 + r.Intn(500)
+			allLimits = false
+		}
 	} else {
 		switch {
 		case idx%8 == 7:
 			n = 100 + r.Intn(201)
+			if idx%16 == 15 {
+				n = 300 + r.Intn(700)
+			}
 			allLimits = false
 		case idx%8 == 6:
 			n = 41 + r.Intn(40)
@@ -789,7 +800,7 @@ func (w *worker) dataset(idx int, thorough bool) {
 
 // Run is the C11 check.
 func Run(ctx *core.Ctx) {
-	ctx.Rule = "PRNG datasets (n objects, strings/points/rectangles/linestrings/polygons mixed, fields n (numeric), f (all value kinds), g (strings), each partly missing) x {SCAN, SCAN DESC, SEARCH ASC, SEARCH DESC, WITHIN, INTERSECTS, NEARBY} x 12 filter-kind combinations of MATCH/WHERE/WHEREIN/WHEREEVAL x outputs IDS + one of OBJECTS/POINTS x every LIMIT 1..n+1 (n > 80: 30-45 chosen LIMITs incl. 1..12, m/k, m/k+-1, n, n+1); each LIMIT is paged by following the returned cursor until 0 and the concatenation compared element by element (id, object, fields) with the single LIMIT n+1 reply; at every page boundary of the IDS runs `CURSOR c LIMIT n+1 COUNT` is compared with the number of ids still to come. non-trivial = the result spans >= 2 pages (result size > LIMIT); distinct key = (command, filter kinds, order, LIMIT)"
+	ctx.Rule = "PRNG datasets (n objects, strings/points/rectangles/linestrings/polygons mixed, fields n (numeric), f (all value kinds), g (strings), each partly missing) x {SCAN, SCAN DESC, SEARCH ASC, SEARCH DESC, WITHIN, INTERSECTS, NEARBY} x 12 filter-kind combinations of MATCH/WHERE/WHEREIN/WHEREEVAL x outputs IDS + one of OBJECTS/POINTS x every LIMIT 1..n+1 (n > 80, up to 800 (quick) / 1000 (thorough) objects: 30-55 chosen LIMITs incl. 1..12, m/k, m/k+-1, n, n+1, 2^k and 2^k+-1 up to 513); each LIMIT is paged by following the returned cursor until 0 and the concatenation compared element by element (id, object, fields) with the single LIMIT n+1 reply; at every page boundary of the IDS runs `CURSOR c LIMIT n+1 COUNT` is compared with the number of ids still to come. non-trivial = the result spans >= 2 pages (result size > LIMIT); distinct key = (command, filter kinds, order, LIMIT)"
 	ctx.Assumptions = []string{
 		"the collection does not change during paging (each dataset is loaded once by the only client that queries it)",
 		"NEARBY: a different order among objects at exactly equal distance is accepted",
